@@ -71,4 +71,8 @@ def units(ctx):
     from vlib.pyvc.unit import contract_unit as _cu4
     us += [_cu4(c, world_setup=_u4.setup) for c in _u4.contracts()
            if 'FrozenDict.__hash__' in c.short]
+    from contracts import collections as _cc7
+    from vlib.pyvc.unit import contract_unit as _cu7
+    us += [_cu7(c, world_setup=_cc7.setup_mem)
+           for c in _cc7.slice_contracts()]
     return us
